@@ -26,8 +26,8 @@ IV == <<VInt(0), VInt(1), VInt(2), VInt(3), VInt(-2)>>
 Pow5(i) == 5^i
 \* i-th (1-based) base-5 digit of v selects an int of the universe
 PV(i, v) == IV[((v \div Pow5(i - 1)) % 5) + 1]
-\* the universe: 0 1 2 3 -2 False True, a list, an object with one attribute; plus None, a string, 0.0 1.5 -0.5
-UNIV == 14
+\* the universe: 0 1 2 3 -2 False True, a list, an object with one attribute; plus None, a string, 0.0 1.5 -0.5 -2.0
+UNIV == 15
 ULeaf(id, u) == CASE u <= 5 -> Leaf(id, IV[u])
                   [] u = 6 -> Leaf(id, VBool(FALSE))
                   [] u = 7 -> Leaf(id, VBool(TRUE))
@@ -38,6 +38,7 @@ ULeaf(id, u) == CASE u <= 5 -> Leaf(id, IV[u])
                   [] u = 12 -> Leaf(id, VFloat(0, 1))
                   [] u = 13 -> Leaf(id, VFloat(3, 2))
                   [] u = 14 -> Leaf(id, VFloat(-1, 2))
+                  [] u = 15 -> Leaf(id, VFloat(-2, 1))
 \* seeded subsets of 0..n-1 of size <= k
 Pick(n, k, salt) == { ((Seed + salt) * 7919 + j * 104729) % n : j \in 0..(k - 1) }
 
@@ -241,6 +242,36 @@ StmtProg(tpl, v) ==
          [] tpl = 33 -> P(Aug("*", A, e1), <<<<"a", Leaf(90, VBool(TRUE))>>>>)
          [] tpl = 34 -> P(Assign(<<Tup(<<A, B>>), Lst(<<C, Idx(LeafL(1), x2)>>)>>, Tup(<<e3, e4>>)), none)
 
+\* ------------------------------------------------------------------------------ random trees (PyExprSim)
+\* tape[pos + 1] decides the node at tree position pos (children of pos: 4 pos + 1 .. 4 pos + 3)
+SimVals == <<VInt(0), VInt(1), VInt(2), VInt(3), VInt(-2), VBool(FALSE), VBool(TRUE)>>
+CmpOps6 == <<"<", "<=", "==", "!=", ">", ">=">>
+RECURSIVE SimNode(_, _, _)
+SimNode(pos, depth, tape) ==
+    LET x == tape[pos + 1]
+        kind == (x \div 4) % 24
+        o1 == CmpOps6[((x \div 96) % 6) + 1]
+        o2 == CmpOps6[((x \div 7) % 6) + 1]
+        A == SimNode(4 * pos + 1, depth - 1, tape)
+        B == SimNode(4 * pos + 2, depth - 1, tape)
+        C == SimNode(4 * pos + 3, depth - 1, tape)
+    IN IF depth = 0 \/ x % 4 = 0 THEN Leaf(pos + 1, SimVals[((x \div 4) % 7) + 1])
+       ELSE CASE kind <= 11 -> Bin(Ops12[kind + 1], A, B)
+              [] kind = 12 -> BoolE("and", <<A, B>>)
+              [] kind = 13 -> BoolE("or", <<A, B>>)
+              [] kind = 14 -> Cmp(<<o1>>, <<A, B>>)
+              [] kind = 15 -> Cmp(<<o1, o2>>, <<A, B, C>>)
+              [] kind = 16 -> Un("-", A)
+              [] kind = 17 -> Un("not", A)
+              [] kind = 18 -> IfE(A, B, C)
+              [] kind = 19 -> Idx(Tup(<<A, B>>), C)
+              [] kind = 20 -> Idx(Lst(<<A, B, C>>), Leaf(pos + 65, SimVals[((x \div 96) % 5) + 1]))
+              [] kind = 21 -> Un("~", A)
+              [] kind = 22 -> BoolE(IF x % 8 < 4 THEN "and" ELSE "or", <<A, B, C>>)
+              [] kind = 23 -> Idx(Call(Name("f"), <<APos(A), AKw("k", B)>>), C)
+SimTapeLen == 64
+SimRange == 0..575
+
 \* ------------------------------------------------------------------------------ the case space
 PrimCases(th) ==
     { <<"prim", 1, o, a, b>> : o \in 1..22, a \in 1..UNIV, b \in 1..UNIV }        \* binary and comparison operators
@@ -254,7 +285,7 @@ TripleCases(th) == { <<"triple", o1, o2, o3, sh, t>> : o1 \in TripleOps(th), o2 
 UnMixCases(th) == { <<"unmix", u, b, sh, t>> : u \in 1..4, b \in 1..20, sh \in 1..3, t \in Pick(125, IF th THEN 8 ELSE 2, 3) }
 TruthCases(th) == { <<"truth", tpl, v1, v2, v3, ctx>> : tpl \in 1..NTruth, v1 \in 1..(IF th THEN 5 ELSE 3),
                                                      v2 \in 1..(IF th THEN 5 ELSE 3), v3 \in 1..(IF th THEN 5 ELSE 3), ctx \in 1..3 }
-D2Cases(th) == { d \o <<va>> : d \in { x \in D2All(th) : D2Valid(x) /\ (th \/ D2Index(x) % 12 = Seed % 12) },
+D2Cases(th) == { d \o <<va>> : d \in { x \in D2All(th) : D2Valid(x) /\ (th \/ D2Index(x) % 16 = Seed % 16) },
                           va \in IF th THEN {Seed % 16, (Seed + 5) % 16} ELSE {Seed % 16} }
 FormCases(th) == { <<"form", tpl, v>> : tpl \in 1..NForm, v \in Pick(16807, IF th THEN 60 ELSE 6, 4) }
 StmtCases(th) == { <<"stmt", tpl, v>> : tpl \in 1..NStmt, v \in Pick(16807, IF th THEN 80 ELSE 8, 5) }
@@ -277,6 +308,7 @@ Prog(d) ==
       [] d[1] = "d2" -> E(D2Tree(d[2], d[3], d[4], d[5], d[6]))
       [] d[1] = "form" -> E(FormTree(d[2], d[3]))
       [] d[1] = "stmt" -> LET p == StmtProg(d[2], d[3]) IN [body |-> p.body, env0 |-> p.env0, isStmt |-> TRUE]
+      [] d[1] = "sim" -> E(SimNode(0, d[2], d[3]))
 
 \* ------------------------------------------------------------------------------ evaluation and output of one case
 RECURSIVE SortedIds(_)
